@@ -288,7 +288,7 @@ func vpWantReply(c *vpKConn) []byte {
 
 //vp:property C20 C10
 //vp:set kmax 2 3
-//vp:bounds 1..kmax UDP and 1..kmax TCP KDCs; each KDC independently: refuses the connection / write fails / stays silent (read error) / replies 3 arbitrary bytes; Kerberos message of 2 symbolic bytes behind the 4-byte length prefix; POST with valid DER, realm "R"
+//vp:bounds 1..kmax UDP and 1..kmax TCP KDCs; each KDC independently: refuses the connection / write fails / stays silent (read error) / replies 3 arbitrary bytes; embedded message: 4-byte prefix + 2 symbolic bytes, or any 0..4 bytes (shorter than the prefix); POST with valid DER, realm "R"
 //vp:assume every started reader eventually sends (the 5 s deadline); goroutines run when the handler blocks (no interleaving exploration)
 //vp:reach replied noreply
 func VP_C20_relay() {
@@ -296,8 +296,18 @@ func VP_C20_relay() {
 	vpUnknown = false
 	vpUDPn = vpIntRange("udp", 1, vpParam("kmax"))
 	vpTCPn = vpIntRange("tcp", 1, vpParam("kmax"))
-	payload := vpBytesN("krb", 2)
-	msg := append([]byte{0, 0, 0, 2}, payload...)
+	// the embedded message: normally 4-byte length prefix + Kerberos bytes, but the client controls it
+	// entirely — it may be shorter than the prefix
+	var msg, payload []byte
+	if vpBool("well-formed-message") {
+		payload = vpBytesN("krb", 2)
+		msg = append([]byte{0, 0, 0, 2}, payload...)
+	} else {
+		msg = vpBytes("short-message", 4)
+		if len(msg) > 4 {
+			payload = msg[4:]
+		}
+	}
 	vpDERok, vpRest = true, 0
 	vpMsg = KdcProxyMsg{Message: msg, Realm: "R"}
 	r := &http.Request{Method: "POST", ContentLength: 4, Body: &vpBody{data: make([]byte, 4)}}
@@ -306,6 +316,10 @@ func VP_C20_relay() {
 	vpRunTasks()
 	vpObserve("status", uint64(w.status))
 	vpAssert(w.status != 0, "every-request-is-answered")
+	if len(msg) < 4 {
+		vpAssert(w.status == 400 && len(vpDialLog) == 0, "message-shorter-than-its-prefix-is-400-and-contacts-no-kdc")
+		return
+	}
 
 	anyReply := false
 	for _, c := range vpConns {
